@@ -62,6 +62,8 @@ def shapes(tier):
     # a sample outside the prior support / with a failed likelihood: ln value -inf at a given row
     for ns, pos in ((2, 0), (3, 0), (3, 1)):
         out.append({"fn": "MAP_sample", "ns": ns, "neginf": pos})
+    out.append({"fn": "MAP_sample", "ns": 2, "extra_cols": ["ln_posterior"]})
+    out.append({"fn": "MAP_sample", "ns": 3, "extra_cols": ["ln_posterior"]})
     return out
 
 
@@ -122,12 +124,16 @@ def run_shape(shape, tier):
             ns = shape["ns"]
             s = st.samples.JokerSamples()
             cols = {}
-            for name, un in (("P", units.day), ("e", units.one), ("ln_prior", units.one), ("ln_likelihood", units.one)):
+            extra = [(c_, units.one) for c_ in shape.get("extra_cols", [])]      # further stored columns must not take part in the choice
+            for name, un in [("P", units.day), ("e", units.one), ("ln_prior", units.one), ("ln_likelihood", units.one)] + extra:
                 cells = [core.real("%s_%d" % (name, i)) for i in range(ns)]
                 if name == "ln_likelihood" and shape.get("neginf") is not None:
                     cells[shape["neginf"]] = symnp.NonFinite("-inf")
                 cols[name] = cells
-                s[name] = units.Quantity(symnp.SymArray(symnp._obj(cells), symnp._F8), un)
+                if name in shape.get("extra_cols", []):
+                    s.tbl[name] = units.Quantity(symnp.SymArray(symnp._obj(cells), symnp._F8), un)      # e.g. stored by from_inference_data
+                else:
+                    s[name] = units.Quantity(symnp.SymArray(symnp._obj(cells), symnp._F8), un)
             row, idx = sa.MAP_sample(s, return_index=True)
             row2 = sa.MAP_sample(s)
             return cols, row, idx, row2
@@ -319,6 +325,8 @@ def replay(cand):
         s["e"] = np.array([f(x) for x in m["e"]])
         s["ln_prior"] = np.array([f(x) for x in m["ln_prior"]])
         s["ln_likelihood"] = np.array([float("-inf") if x == "-inf" else f(x) for x in m["ln_likelihood"]])
+        for c_ in shape.get("extra_cols", []):
+            s[c_] = np.array([f(x) for x in m[c_]]) if c_ in m else -np.arange(len(s), dtype=float)[::-1]
         post = s["ln_prior"].value + s["ln_likelihood"].value
         try:
             row, i = sa.MAP_sample(s, return_index=True)
